@@ -153,6 +153,14 @@ def random_case(ctx, idx, rng):
     chains = [chains[i] for i in perm]
     if not any(c.coeff != 0 for c in chains):
         chains[0].coeff = 1.0
+    # the documented Sequence / number forms: ids and quantum numbers as tuples or integer arrays, the chain container as a tuple, coefficients as numpy scalars / ints
+    form = idx % 4
+    if form == 1:
+        chains = tuple(ptn.OpChain(tuple(c.oids), tuple(c.qnums), c.coeff, c.istart) for c in chains)
+    elif form == 2:
+        chains = [ptn.OpChain(np.array(c.oids, dtype=np.int64), np.array(c.qnums, dtype=np.int64), np.float64(c.coeff), int(c.istart)) for c in chains]
+    elif form == 3:
+        chains = [ptn.OpChain(c.oids, c.qnums, int(c.coeff) if float(c.coeff).is_integer() else c.coeff, np.int64(c.istart)) for c in chains]
     zero_sum = not refs.chains_poly(chains, L, oid_id0)
     ctx.case(('random', kind, f'L{min(L, 4) if L <= 8 else "long"}', f'ops{nops}', 'sum-zero' if zero_sum else 'sum-nonzero', 'ids-default' if pool is None else f'ids{pool}'), nontrivial=True,
              sample={'L': L, 'chains': [(c.oids, c.qnums, c.coeff, c.istart) for c in chains[:8]]},
